@@ -629,7 +629,23 @@ fn run_case1(case: &Value, out: &mut dyn Write, forced: Option<(i32, i32, f64)>)
         if is_reload && reloaded.is_none() {
             continue;
         }
-        let comps = if is_reload { reloaded.as_ref().unwrap().0.clone() } else { apply_run(&base, run) };
+        // "pre": the scaling is made on the DECLARED input (the abstract components of the case are written with every
+        // value times c and read again), so that the normalisation - completion, sharing of the auxiliaries - sees
+        // the scaled building; without it the parsed, normalised set is scaled
+        let pre = run.get("pre").and_then(|x| x.as_bool()).unwrap_or(false) && run.get("scale").is_some() && case["src"]["comps"].is_array();
+        let comps = if is_reload {
+            reloaded.as_ref().unwrap().0.clone()
+        } else if pre {
+            let k = rat(&run["scale"], 1.0);
+            let cs: Vec<AbsComp> = case["src"]["comps"].as_array().unwrap().iter().map(AbsComp::from_json)
+                .map(|mut c| { for x in c.v.iter_mut() { *x *= k; } c }).collect();
+            match catch_unwind(AssertUnwindSafe(|| render_comps(&cs, &[]).parse::<Components>())) {
+                Ok(Ok(c)) => c,
+                _ => apply_run(&base, run),
+            }
+        } else {
+            apply_run(&base, run)
+        };
         if run.get("scale").is_some() {
             // the properties quantify over values that are zero or >= 0.01 kWh: a scaling that takes a
             // non-zero value below that is not a valid transform of this input (no event)
